@@ -177,7 +177,8 @@ def main(argv=None):
                 harness_errors.append(f'replay failed: {e}')
             if not reproduced:
                 harness_errors.append(f'violation {fp} (run k={k}) did not reproduce on replay')
-            orig_path = os.path.join(VERIF, 'replays', f'{check.prop}-{verif_seed}-{k}.orig.json')
+            tag = f'{check.prop}-{verif_seed}-{k}-{len(reported)}'
+            orig_path = os.path.join(VERIF, 'replays', f'{tag}.orig.json')
             with open(orig_path, 'w') as f:
                 json.dump(payload, f)
             final = payload
@@ -188,7 +189,7 @@ def main(argv=None):
                 except Exception as e:
                     final = payload
                     final['minimise_error'] = repr(e)
-            path = os.path.join(VERIF, 'replays', f'{check.prop}-{verif_seed}-{k}.json')
+            path = os.path.join(VERIF, 'replays', f'{tag}.json')
             with open(path, 'w') as f:
                 json.dump(final, f)
         reported.append({'fingerprint': fp, 'count': len(items), 'replay': path, 'k': k, 'clause': v['clause']})
